@@ -792,9 +792,21 @@ def inline_unknown_helpers(tree, modname):
                             and callee_of(st.value, cls)[0] is not None:
                         call = st.value
                         where = "value"
-                    elif isinstance(st, ast.For) and isinstance(st.iter, ast.Call):
+                    elif isinstance(st, ast.For) and isinstance(st.iter, ast.Call) and callee_of(st.iter, cls)[0] is not None:
                         call = st.iter
                         where = "iter"
+                    elif isinstance(st, ast.For):
+                        # the first call evaluated in the iterable (it is evaluated once, before the loop)
+                        order = _eval_order(st) or []
+                        for k_, x in enumerate(order):
+                            if isinstance(x, ast.Call):
+                                inside = {id(y) for y in ast.walk(x)}
+                                before = [y for y in order[:k_] if id(y) not in inside]
+                                if callee_of(x, cls)[0] is not None and all(
+                                        isinstance(y, (ast.Name, ast.Constant, ast.expr_context)) for y in before):
+                                    call = x
+                                    where = "nested"
+                                break
                     elif isinstance(st, (ast.Assign, ast.AugAssign, ast.Expr, ast.Return)) and getattr(st, "value", None) is not None \
                             and (not isinstance(st, ast.AugAssign) or isinstance(st.target, ast.Name)):
                         # the first call evaluated in the statement, when only plain names / literals are read before it
